@@ -92,44 +92,84 @@ def _local_order(fn: ast.FunctionDef, body) -> Dict[str, str]:
 
 
 def _digest_with(fn, body, order, own_names, blank_attrs) -> str:
+    """canonical text of the body, written directly (no copy of the tree): locals numbered, names of the module's own
+    functions blanked, keywords of sibling calls by position; with blank_attrs every attribute name is blanked and collected"""
     import hashlib
 
-    class B(ast.NodeTransformer):
-        def visit_Attribute(self, n):
-            self.generic_visit(n)
-            if blank_attrs is not None:
-                blank_attrs.append(n.attr)
-                return ast.Attribute(value=n.value, attr="_A_", ctx=n.ctx)
-            return ast.Attribute(value=n.value, attr="_F_", ctx=n.ctx) if n.attr in own_names else n
+    out: List[str] = []
+    w = out.append
 
-        def visit_Name(self, n):
-            if n.id in order:
-                return ast.Name(id=order[n.id], ctx=n.ctx)
-            return ast.Name(id="_F_", ctx=n.ctx) if n.id in own_names else n
+    def own_call(n) -> bool:
+        return (isinstance(n.func, ast.Attribute) and n.func.attr in own_names) or (isinstance(n.func, ast.Name) and n.func.id in own_names and n.func.id not in order)
 
-        def visit_ExceptHandler(self, n):
-            self.generic_visit(n)
-            if n.name:
-                n.name = order.get(n.name, n.name)
-            return n
-
-        def visit_arg(self, n):
-            n.arg = order.get(n.arg, n.arg)
-            return n
-
-        def visit_Call(self, n):
-            own = (isinstance(n.func, ast.Attribute) and n.func.attr in own_names) or (isinstance(n.func, ast.Name) and n.func.id in own_names and n.func.id not in order)
-            self.generic_visit(n)
-            if own:
-                # parameters of a sibling may have been renamed along with it: keywords of such a call count by position
+    def dump(n, kw_pos=None):
+        if isinstance(n, ast.AST):
+            if isinstance(n, ast.Name):
+                w("N(")
+                w(order[n.id] if n.id in order else ("_F_" if n.id in own_names else n.id))
+                w(type(n.ctx).__name__[0])
+                w(")")
+                return
+            if isinstance(n, ast.Attribute):
+                w("A(")
+                dump(n.value)
+                if blank_attrs is not None:
+                    blank_attrs.append(n.attr)
+                    w("._A_")
+                else:
+                    w("._F_" if n.attr in own_names else "." + n.attr)
+                w(type(n.ctx).__name__[0])
+                w(")")
+                return
+            if isinstance(n, ast.arg):
+                w("a(" + order.get(n.arg, n.arg) + ")")
+                return
+            if isinstance(n, ast.keyword):
+                w("k(" + (kw_pos if kw_pos is not None and n.arg is not None else str(n.arg)) + "=")
+                dump(n.value)
+                w(")")
+                return
+            if isinstance(n, ast.Call):
+                own = own_call(n)
+                w("C(")
+                dump(n.func)
+                w("|")
+                for a in n.args:
+                    dump(a)
+                    w(",")
+                w("|")
                 for i_, k in enumerate(n.keywords):
-                    if k.arg is not None:
-                        k.arg = f"_K{i_}"
-            return n
+                    dump(k, f"_K{i_}" if own else None)
+                    w(",")
+                w(")")
+                return
+            if isinstance(n, ast.ExceptHandler):
+                w("H(")
+                dump(n.type)
+                w("," + (order.get(n.name, n.name) if n.name else "-") + ",")
+                dump(n.body)
+                w(")")
+                return
+            if isinstance(n, ast.Constant):
+                w("K(" + repr(n.value) + ")")
+                return
+            w(type(n).__name__ + "(")
+            for f_ in n._fields:
+                dump(getattr(n, f_, None))
+                w(",")
+            w(")")
+        elif isinstance(n, list):
+            w("[")
+            for x in n:
+                dump(x)
+                w(",")
+            w("]")
+        else:
+            w(repr(n))
 
-    txt = ast.dump(ast.Module(body=[B().visit(copy.deepcopy(x)) for x in body], type_ignores=[]), annotate_fields=False, include_attributes=False)
+    dump(body)
     nargs = len(fn.args.posonlyargs + fn.args.args + fn.args.kwonlyargs)
-    return hashlib.sha1((str(nargs) + "|" + txt).encode()).hexdigest()[:16]
+    return hashlib.sha1((str(nargs) + "|" + "".join(out)).encode()).hexdigest()[:16]
 
 
 def attr_signature(fn: ast.FunctionDef, own_names: Set[str]) -> Tuple[str, List[str]]:
